@@ -326,6 +326,22 @@ pub fn alphabet_c14_longtrack(rx: (f64, f64)) -> Vec<Ev> {
     v
 }
 
+/// velocity reports of one aircraft that differ from `vel1` in exactly ONE derived attribute (vertical rate only,
+/// track only at equal ground speed, ground speed only at equal track), plus the no-information and airspeed
+/// sub-types and another aircraft: latest-wins must hold per attribute, not per "did the report change" (round 7)
+pub fn alphabet_c14_velocity() -> Vec<Ev> {
+    vec![
+        fr("a1.vel1", enc::es_frame(17, 5, A1, enc::me_vel_kt(100, -200, 640))),
+        fr("a1.vel1.vr-1024", enc::es_frame(17, 5, A1, enc::me_vel_kt(100, -200, -1024))),
+        fr("a1.vel1.vr0", enc::es_frame(17, 5, A1, enc::me_vel_kt(100, -200, 0))),
+        fr("a1.vel1.track", enc::es_frame(17, 5, A1, enc::me_vel_kt(200, -100, 640))),
+        fr("a1.vel1.speed", enc::es_frame(17, 5, A1, enc::me_vel_kt(200, -400, 640))),
+        fr("a1.vel0", enc::es_frame(17, 5, A1, enc::me_vel_gs(1, 0, 0, 0, 5, 0, 0, 3))),
+        fr("a1.airspeed", enc::es_frame(17, 5, A1, 19u64 << 51 | 3 << 48 | 1 << 42 | 100 << 32 | 200 << 21 | 5 << 10)),
+        fr("a2.vel1.vr-1024", enc::es_frame(17, 5, A2, enc::me_vel_kt(100, -200, -1024))),
+    ]
+}
+
 pub fn alphabet_c14(rx: (f64, f64)) -> Vec<Ev> {
     let mut v = vec![];
     let p0 = dest(rx, 15.0, 10.0);
